@@ -89,7 +89,7 @@ CHECKS = {
               "(finite sweeps for the packed bytes lifted to all values, byte-list lemmas for the rest). On every run SZ_getMetadata is compared "
               "field by field with the model's header walk on regular, constant and lossless streams of every type, the block is re-encoded by the "
               "model and must equal the implementation's bytes, and the reported fields are judged against the call's arguments and the "
-              "reconstruction error; four listed finding classes are subtracted by predicate."),
+              "reconstruction error (for float/double data also in the combined point-wise relative modes 11..14); five listed finding classes are subtracted by predicate."),
         note=TB_COMMON + "The header walk is proved (C06_header_walk) for the fields SZ_getMetadata reports; min/max of integer streams lie outside the 28-byte field and are not part of the statement; PSNR/NORM derived bounds rely on libm.",
         technique="Coq proof of the parameter-block codec + differential check of SZ_getMetadata + oracle against call arguments"),
     "C05": dict(
